@@ -362,11 +362,42 @@ type Gen struct {
 	// pending are the types created by earlier fragments of the document
 	// being generated (not yet in the root).
 	pending []*TInfo
+	// CaseTwins makes some type names differ from an earlier name of the same
+	// kind only in case (T5 / t5).
+	CaseTwins bool
+	issued    map[string][]string
 }
 
 func (g *Gen) fresh(prefix string) string {
+	if g.CaseTwins {
+		switch prefix {
+		case "T", "E", "I", "In", "S", "U":
+			if prev := g.issued[prefix]; len(prev) > 0 && g.T.Bool(1, 5) {
+				n := strings.ToLower(prev[g.T.Draw(len(prev))])
+				taken := false
+				for _, l := range g.issued {
+					for _, x := range l {
+						if x == n {
+							taken = true
+						}
+					}
+				}
+				if !taken {
+					g.issued[prefix+"-twin"] = append(g.issued[prefix+"-twin"], n)
+					return n
+				}
+			}
+		}
+	}
 	g.N++
-	return fmt.Sprintf("%s%d", prefix, g.N)
+	n := fmt.Sprintf("%s%d", prefix, g.N)
+	if g.CaseTwins {
+		if g.issued == nil {
+			g.issued = map[string][]string{}
+		}
+		g.issued[prefix] = append(g.issued[prefix], n)
+	}
+	return n
 }
 
 func (g *Gen) all(kind string) []*TInfo {
